@@ -57,6 +57,13 @@ class StaticCase:
         van = set(e["vanishing"])
         self.nonvan = [KEYS21[n - 1] for n in range(1, 22) if n not in van]
         self.svol = numpy.linspace(self.vol.max() * rng.uniform(0.98, 1.02), self.vol.min() * rng.uniform(0.98, 1.02), int(rng.integers(5, 9)))
+        if rng.random() < 0.3 and self.nv >= 4:
+            # the static table lists as many volumes as the energy file, with the same first and last volume, and OTHER volumes in between
+            # (two calculations on the same compression range with different intermediate points)
+            self.svol = self.vol.copy()
+            step = float(numpy.min(numpy.abs(numpy.diff(numpy.sort(self.vol)))))
+            self.svol[1:-1] += rng.uniform(0.15, 0.4, self.nv - 2) * step * rng.choice([-1.0, 1.0], self.nv - 2)
+            self.same_ends = True
         self.sv0 = self.svol[0]
 
     def tabulated_energy(self, v):
